@@ -91,7 +91,8 @@ def tlaps(work, rep):
     if not m:
         raise vf.ToolError("TLAPS did not discharge every obligation of SettingsProofs.tla:\n" + p.stdout[-1500:])
     rep.cov["tlaps_obligations_proved"] = int(m.group(1))
-    rep.cov["tlaps_theorems"] = ["DomInv: Spec => []DomOK", "WriteOnceThm: Spec => WriteOnce (any Threads, Cells, MaxOps, OpsOf)"]
+    rep.cov["tlaps_theorems"] = ["DomInv: Spec => []DomOK", "WriteOnceThm: Spec => WriteOnce (any Threads, Cells, MaxOps, OpsOf)",
+                                  "RunnerOwnsThm: Spec => RunnerOwnsCell (a running cell is only ended by its runner, by publishing)"]
     vf.log(f"TLAPS: all {m.group(1)} obligations of SettingsProofs.tla proved")
 
 
